@@ -55,6 +55,9 @@ def oracle(case):
     nonempty = sum(1 for k in ("u", "v", "d") if ln.get(k))
     out.nontrivial = form != "plain" or (nonempty >= 2 and any(p not in MINIMAL_PADS for p in ln.get("p", [])))
     out.sample = dict(line=text, section=SECTION_NAME[kind], expected=exp)
+    if not hasattr(R, "read_header_line"):
+        from vlib.api import HarnessError
+        raise HarnessError("C04 observes lasio.reader.read_header_line directly; it is not there any more: adapt the check")
     got = attempt(R.read_header_line, text, section_name=SECTION_NAME[kind])
     if is_raised(got):
         out.fail("line-raises|%s|%s|%s" % (form, kind, got.type), "read_header_line(%r, section_name=%r) raised %s; expected %r"
